@@ -131,3 +131,36 @@ Proof.
   cbn. rewrite with_opts_vopt. cbn. unfold read_set, read_raw, advance.
   destruct (validate_tag _ _ _ _) as [[raw consumed]|e]; reflexivity.
 Qed.
+
+(* the module-level readers of Flow/World_asn1.v (m_read_*: value and octets consumed, what `_read_asn1_X` returns) are the
+   model's reader functions up to `advance`: nothing new is introduced by them *)
+Lemma flow_model_read_boolean view t h :
+  read_boolean view t h = (let* (v, c) := m_read_boolean view t h in Ok (v, advance view c)).
+Proof. unfold read_boolean, read_raw, m_read_boolean. destruct (validate_tag _ _ _ _) as [[raw c]|e]; reflexivity. Qed.
+Lemma flow_model_read_integer view t h :
+  read_integer view t h = (let* (v, c) := m_read_integer view t h in Ok (v, advance view c)).
+Proof.
+  unfold read_integer, m_read_integer. destruct (validate_tag _ _ _ _) as [[raw c]|e]; cbn [bind]; [|reflexivity].
+  destruct (read_int_content raw); reflexivity.
+Qed.
+Lemma flow_model_read_enumerated view t h :
+  read_enumerated view t h = (let* (v, c) := m_read_enumerated view t h in Ok (v, advance view c)).
+Proof. unfold read_enumerated, m_read_enumerated. apply flow_model_read_integer. Qed.
+Lemma flow_model_read_object_identifier view t h :
+  read_object_identifier view t h = (let* (v, c) := m_read_object_identifier view t h in Ok (v, advance view c)).
+Proof.
+  unfold read_object_identifier, m_read_object_identifier. destruct (validate_tag _ _ _ _) as [[raw c]|e]; cbn [bind]; [|reflexivity].
+  destruct (read_oid_content raw); reflexivity.
+Qed.
+Lemma flow_model_read_utf8_string view t h :
+  read_utf8_string view t h = (let* (v, c) := m_read_str c_tag_utf8 view t h in Ok (v, advance view c)).
+Proof.
+  unfold read_utf8_string, m_read_str. destruct (validate_tag _ _ _ _) as [[raw c]|e]; cbn [bind]; [|reflexivity].
+  destruct (utf8_decode raw); reflexivity.
+Qed.
+Lemma flow_model_read_generalized_time view t h :
+  read_generalized_time view t h = (let* (v, c) := m_read_str c_tag_gentime view t h in Ok (v, advance view c)).
+Proof.
+  unfold read_generalized_time, m_read_str. destruct (validate_tag _ _ _ _) as [[raw c]|e]; cbn [bind]; [|reflexivity].
+  destruct (utf8_decode raw); reflexivity.
+Qed.
